@@ -137,3 +137,43 @@ pub fn embed<T: Ring, const N: usize, const M: usize>(a: &A<T, N>) -> A<T, M> {
 }
 pub fn cross3<T: Ring>(a: &[T; 3], b: &[T; 3]) -> [T; 3] { [a[1] * b[2] - a[2] * b[1], a[2] * b[0] - a[0] * b[2], a[0] * b[1] - a[1] * b[0]] }
 pub fn dotn<T: Ring, const N: usize>(a: &[T; N], b: &[T; N]) -> T { let mut s = T::zero(); for i in 0..N { s = s + a[i] * b[i]; } s }
+
+// ---- rational rotations -------------------------------------------------------------------------
+use crate::q::{q, qi, X};
+/// Rodrigues' formula from the definition: R v = v cos + (k x v) sin + k (k.v)(1-cos), applied to the basis.
+pub fn rodrigues(k: &[X; 3], c: X, s: X) -> A<X, 3> {
+    let mut m = [[qi(0); 3]; 3];
+    for j in 0..3 {
+        let mut e = [qi(0); 3]; e[j] = qi(1);
+        let kxe = cross3(k, &e);
+        let kd = dotn(k, &e);
+        for i in 0..3 { m[i][j] = e[i] * c + kxe[i] * s + k[i] * kd * (qi(1) - c); }
+    }
+    m
+}
+/// (cos, sin) of rational points of the unit circle: parameter t -> ((1-t^2)/(1+t^2), 2t/(1+t^2)), plus (-1,0).
+pub fn circle_points() -> Vec<(X, X)> {
+    let mut v = vec![(qi(-1), qi(0))];
+    for (n, d) in [(0, 1), (1, 1), (-1, 1), (1, 2), (-1, 2), (2, 1), (-3, 1), (1, 3), (1, 5), (-5, 2), (3, 4)] {
+        let t = q(n, d); let t2 = t * t;
+        v.push(((qi(1) - t2) / (qi(1) + t2), (t + t) / (qi(1) + t2)));
+    }
+    v
+}
+/// rational unit vectors: sign/permutation closure of a few Pythagorean quadruples
+pub fn unit_axes() -> Vec<[X; 3]> {
+    let seeds: [([i128; 3], i128); 6] = [([1, 0, 0], 1), ([1, 2, 2], 3), ([2, 3, 6], 7), ([0, 3, 4], 5), ([1, 4, 8], 9), ([4, 4, 7], 9)];
+    let perms = [[0, 1, 2], [0, 2, 1], [1, 0, 2], [1, 2, 0], [2, 0, 1], [2, 1, 0]];
+    let mut out: Vec<[X; 3]> = Vec::new();
+    for (v, n) in seeds { for p in perms { for sg in 0..8 {
+        let a = [q(v[p[0]] * if sg & 1 == 0 { 1 } else { -1 }, n), q(v[p[1]] * if sg & 2 == 0 { 1 } else { -1 }, n), q(v[p[2]] * if sg & 4 == 0 { 1 } else { -1 }, n)];
+        if !out.contains(&a) { out.push(a); }
+    } } }
+    out
+}
+/// 4x4 homogeneous matrix from a 3x3 linear part and a translation
+pub fn affine4(l: &A<X, 3>, t: &[X; 3]) -> A<X, 4> {
+    let mut m = ident::<X, 4>();
+    for i in 0..3 { for j in 0..3 { m[i][j] = l[i][j]; } m[i][3] = t[i]; }
+    m
+}
